@@ -27,6 +27,10 @@
 (* Tag programs are built from options [t: labels, s: source pieces,         *)
 (* v: variables read]; a family is the product of the options of each        *)
 (* argument position of a tag, so every argument shape meets every other.    *)
+(* The harness only joins the pieces, looks the valuations up in `dom`, runs *)
+(* the library and reports what it saw; it never decides anything.           *)
+(* Several TLC runs share the family: Families / Roots / Rotations select a  *)
+(* slice, Wide the larger products of the thorough tier.                     *)
 EXTENDS ExprRT, Json, IOUtils, SequencesExt
 
 CONSTANTS Mode,            \* "gen" | "grow" | "judge"
@@ -42,6 +46,9 @@ CONSTANTS Mode,            \* "gen" | "grow" | "judge"
 
 VARIABLES prog, phase, ast, text, ast2, text2
 vars == <<prog, phase, ast, text, ast2, text2>>
+
+(* C12's reference parser and printer for and/or/not (Expr.tla, unchanged); its variables play no part here *)
+C12 == INSTANCE Expr WITH MaxDepth <- 0, case <- prog, verdict <- phase
 
 -----------------------------------------------------------------------------
 (* data: variable -> sequence of values it takes; a valuation maps each variable to an index *)
@@ -281,9 +288,10 @@ LogicProgs ==
   { [fam |-> "logic", tree |-> t, carrier |-> cr] : cr \in Carriers, t \in Rooted(UNION { Trees(CarrierDepth, LogOps, r) : r \in Rotations }) }
   \cup { [fam |-> "logic", tree |-> t, carrier |-> "if"] : t \in Rooted(UNION { Trees(LogicDepth, LogOps, r) : r \in Rotations }) }
 CmpProgs ==
-  { [fam |-> "compare", tree |-> t, carrier |-> cr] : cr \in {"if", "ternary"}, t \in Rooted(Trees(2, BinOps, 0)) }
+  { [fam |-> "compare", tree |-> t, carrier |-> cr] : cr \in (IF Wide THEN {"if", "ternary"} ELSE {"if"}), t \in Rooted(Trees(2, BinOps, 0)) }
   \cup { [fam |-> "compare", tree |-> t, carrier |-> "if"] : t \in Rooted(Trees(CmpDepth, LogOps \cup {"=="}, 1)) }
 IsTree(pg) == pg.fam \in {"logic", "compare", "grown"}
+ASSUME FamiliesKnown == Families \subseteq TagFamilies \cup {"logic", "compare"}
 
 Programs(f) == CASE f = "logic" -> LogicProgs
                  [] f = "compare" -> CmpProgs
@@ -369,6 +377,11 @@ MeaningPreserved == (phase = "reparsed" /\ Meaningful(ast)) => \A e \in Envs(ast
 Idempotent == phase = "done" /\ IsTree(prog) => text2 = text                    \* serialising again yields the same text
 (* the source (ShowMin) and the printer under test already went through the parser; so does the fully parenthesised text *)
 FullyParenthesisedInverts == phase = "parsed" => ParseAll(ShowFull(ast)) = ast
+(* on and/or/not the Pratt transcription agrees with C12's recursive-descent reference, and C12's printer round-trips through it *)
+RECURSIVE PureLogic(_)
+PureLogic(t) == IsAtom(t) \/ (IsNot(t) /\ PureLogic(t[2])) \/ (IsLog(t) /\ PureLogic(t[2]) /\ PureLogic(t[3]))
+AgreesWithExpr == (phase = "printed" /\ PureLogic(ast)) =>
+                     (C12!Parse(text) = ast /\ C12!Parse(Source(prog)) = ast /\ ParseAll(C12!Show(ast)) = ast)
 (* facts about the engine's parser the family relies on (calibrated against the code by `expect`) *)
 ASSUME ParserFacts ==
   /\ Parse(<<"a", "or", "b", "and", "c">>) = <<"or", <<"atom", "a">>, <<"and", <<"atom", "b">>, <<"atom", "c">>>>>>
